@@ -207,6 +207,11 @@ func (a *pwaligner) fillMatrix_SW() (err error) {
 			a.matrix[0][j] = 0.0
 			a.trace[0][j] = ALIGN_DIAG // TO REVIEW
 		}
+		if a.matrix[0][j] > a.maxscore {
+			a.maxscore = a.matrix[0][j]
+			a.maxi = 0
+			a.maxj = j
+		}
 
 		if j > 0 {
 			a.maxa[j] = a.matrix[0][j]
@@ -244,6 +249,11 @@ func (a *pwaligner) fillMatrix_SW() (err error) {
 		} else {
 			a.matrix[i][0] = 0.0
 			a.trace[i][0] = ALIGN_DIAG // TO REVIEW
+		}
+		if a.matrix[i][0] > a.maxscore {
+			a.maxscore = a.matrix[i][0]
+			a.maxi = i
+			a.maxj = 0
 		}
 	}
 
